@@ -11,3 +11,4 @@ func verifLoopTop(s *Scheduler, g *scheduler.ExecutionGraph) {}
 func verifVisit(s *Scheduler, stage *scheduler.Stage)        {}
 func verifCancel(s *Scheduler)                               {}
 func verifReturn(s *Scheduler)                               {}
+func verifNotify(s *Scheduler, stage *scheduler.Stage)       {}
